@@ -304,6 +304,43 @@ def sentence_oracle(ctx: Ctx, n: int) -> None:
         check_sentence_clauses(ctx, ws, W, i0, s0, ml, md, out)
 
 
+def doc_indent_oracle(ctx: Ctx, n: int) -> None:
+    """Renderer side of INDENTS/BOUND: the prefixes the renderer hands to the wrapper at every container
+    nesting (recorded through the public line_wrapper parameter), and the real wrapper's output for them."""
+    import mdgen
+    import rendertie
+    from flowmark.linewrapping.markdown_filling import fill_markdown
+    from flowmark.linewrapping.line_wrappers import line_wrap_to_width
+    rng = ctx.rng
+    docs = list(rendertie.SPECIAL_DOCS) + [mdgen.gen_document(rng, hazards=False) for _ in range(n)]
+    for doc in docs:
+        W = rng.choice([20, 30, 50, 88])
+        real = line_wrap_to_width(width=W, is_markdown=True)
+        calls = []
+
+        def rec(text, i0, s0):
+            out = real(text, i0, s0)
+            calls.append((text, i0, s0, out))
+            return out
+        try:
+            fill_markdown(doc, width=W, line_wrapper=rec)
+        except Exception as e:
+            ctx.fail("format raised", {"doc": doc, "W": W}, repr(e))
+            continue
+        ctx.count(["doc-indent", doc, W], nontrivial=len(calls) > 1)
+        for text, i0, s0, out in calls:
+            case = {"doc": doc, "W": W, "paragraph": text[:80], "i0": i0, "s0": s0}
+            if "[^" not in i0 and len(i0) != len(s0):
+                ctx.fail("INDENTS: continuation indent handed to the wrapper does not line up with the first-line prefix", case, None)
+                break
+            lines = out.split("\n")
+            for k, l in enumerate(lines):
+                ind = i0 if k == 0 else s0
+                if l.strip() and not l.startswith(ind) and not l.lstrip().startswith(("{%", "{#", "{{", "<!--")):
+                    ctx.fail("INDENTS: output line does not carry the configured indent", case, {"line": l, "index": k})
+                    break
+
+
 def replay_findings(ctx: Ctx) -> None:
     tw = _flowmark()
     for fid, e in ctx.kf.items():
@@ -342,6 +379,10 @@ def run(ctx: Ctx) -> None:
     else:
         search(ctx)
     sentence_oracle(ctx, ctx.scale(4000, 60000))
+    if driver_ok:
+        import rendertie
+        ctx.guard("tie render", rendertie.tie_render, ctx.scale(150, 3000))
+    doc_indent_oracle(ctx, ctx.scale(150, 3000))
     ctx.assume("word splitting of Markdown-aware splitter is C06's tie; here the simple splitter and supplied words")
 
 
@@ -354,6 +395,7 @@ def search(ctx: Ctx) -> None:
         if b["tie"] == "fill":
             check_clauses(ctx, c["words"], c["W"], c["c0"], c["c1"], c["md"],
                           _py_fill(tw, c["words"], c["W"], c["c0"], c["c1"], c["md"]), "wrap_paragraph_lines")
+    doc_indent_oracle(ctx, 1500)
     old = ctx.tier
     ctx.tier = "thorough"
     try:
